@@ -228,7 +228,7 @@ pub fn prop_with(case: &Case, known_flush: bool) -> Outcome {
     let via_cli = case.via_cli && requested.as_ref().map_or(true, |v| !v.is_empty());
     let root_chain = case.root_chain || via_cli;
     if case.stale {
-        // an earlier, outdated copy lies in the two directories: same names, other bytes (longer and shorter)
+        // an earlier, outdated copy lies in the two directories: same names, other bytes (longer, shorter, equally long)
         o.label("stale-copy-present");
         std::fs::create_dir_all(&meta_out).unwrap();
         std::fs::create_dir_all(&targets_out).unwrap();
@@ -236,9 +236,14 @@ pub fn prop_with(case: &Case, known_flush: bool) -> Outcome {
         let mut stale_bytes = |orig: &[u8]| -> Vec<u8> {
             i += 1;
             let mut b = orig.to_vec();
-            if i % 2 == 0 && b.len() > 4 {
+            if i % 3 == 0 && b.len() > 4 {
                 b.truncate(b.len() / 2);
                 b[0] ^= 0x20;
+            } else if i % 3 == 1 && !b.is_empty() {
+                // same length, other bytes
+                let l = b.len();
+                b[l / 2] ^= 0x04;
+                b[l - 1] ^= 0x01;
             } else {
                 b.extend_from_slice(b"\n{\"stale\": \"left over from an earlier copy\"}\n");
             }
@@ -512,7 +517,7 @@ pub fn check(ctx: &Ctx) -> Vec<PartReport> {
         ctx,
         PartSpec {
             name: "caches",
-            rule: "random forged source repositories (root chain of 1..3 versions with or without online-key rotation, 0..5 top-level targets incl. sub-directories and resolvable names, 0..3 delegated roles with odd names such as 'with space', 'a/b', '../up', 'dot.json', '%2F', accented, 'q?#', optionally nested), served through the scripted transport; subset of targets in {all, a random subset, none, an unknown name}; with/without root chain; optionally one requested source target corrupted, oversized or missing; in 30 % of the cases the output directories already hold an outdated copy (same file names, longer or shorter other bytes). Oracle: files appear only inside the two directories; a damaged source target makes cache() fail and its bytes never appear under the target's final name; otherwise cache() succeeds, every root version 1..trusted is present and equal to the source when the chain was requested, the copy loads through FilesystemTransport immediately after cache() returned, with equal role versions and delegated roles, every requested target reads back byte-identical and nothing unrequested lies in the targets directory. Non-trivial: damaged source, root chain, subset other than all, or delegated roles; distinct = case",
+            rule: "random forged source repositories (root chain of 1..3 versions with or without online-key rotation, 0..5 top-level targets incl. sub-directories and resolvable names, 0..3 delegated roles with odd names such as 'with space', 'a/b', '../up', 'dot.json', '%2F', accented, 'q?#', optionally nested), served through the scripted transport; subset of targets in {all, a random subset, none, an unknown name}; with/without root chain; optionally one requested source target corrupted, oversized or missing; in 30 % of the cases the output directories already hold an outdated copy (same file names; longer, shorter or equally long other bytes). Oracle: files appear only inside the two directories; a damaged source target makes cache() fail and its bytes never appear under the target's final name; otherwise cache() succeeds, every root version 1..trusted is present and equal to the source when the chain was requested, the copy loads through FilesystemTransport immediately after cache() returned, with equal role versions and delegated roles, every requested target reads back byte-identical and nothing unrequested lies in the targets directory. Non-trivial: damaged source, root chain, subset other than all, or delegated roles; distinct = case",
             mode: Mode::Random { cases: n, strategy: Box::new(|| bx(case_strategy())) },
             prop: Box::new(move |c: &Case| prop_with(c, known)),
             require: vec![
